@@ -254,19 +254,43 @@ def run(ck, m):
         return out
     upd_fn = m.variants(TY, "RenderArgs.update")[-1]
     n7 = 0
-    for r, v in ctor_returns(upd_fn):
+    def _branches(e):
+        return _branches(e.body) + _branches(e.orelse) if isinstance(e, ast.IfExp) else [e]
+    for r, v0 in ctor_returns(upd_fn):
+      for v in _branches(v0):
         n7 += 1
         ok7 = isinstance(v, ast.Call) and norm(v.func) == "RenderArgs" and len(v.args) >= 2 and norm(v.args[0]) == "self.render_cls" and norm(v.args[1]) == "self" \
             and not any(isinstance(x, (ast.ListComp, ast.GeneratorExp, ast.SetComp)) or (isinstance(x, ast.Call) and norm(x.func) == "filter") for a_ in v.args[2:] for x in ast.walk(a_))
         ck.ob("R7", r, ok7, f"RenderArgs.update must return RenderArgs(self.render_cls, self, <every given namespace, in order>); found `{short(v, 80)}` - a filtered or short-cut result loses "
-              "last-given precedence (an earlier duplicate wins once the later, 'unchanged' one is dropped)", stmt="RenderArgs.update: constructor with self and all namespaces")
+                "last-given precedence (an earlier duplicate wins once the later, 'unchanged' one is dropped)", stmt="RenderArgs.update: constructor with self and all namespaces")
     conv = m.get(TY, "RenderArgs.convert")
     for r, v in ctor_returns(conv):
         if norm(v) == "self":
             ck.ob("R7", r, "render_cls is self.render_cls" in conds(r), "RenderArgs.convert may return `self` only for its own render class", stmt="RenderArgs.convert: self only for the same class")
             continue
         n7 += 1
-        carries = isinstance(v, ast.Call) and norm(v.func) == "RenderArgs" and len(v.args) >= 2 and any("self" in {n_.id for n_ in ast.walk(a_) if isinstance(n_, ast.Name)} for a_ in v.args[1:])
+        def from_self(e, seen=None):
+            """`self` is in the backward slice of e: through local bindings, loop targets and what is appended to local containers."""
+            seen = set() if seen is None else seen
+            for n_ in ast.walk(e):
+                if isinstance(n_, ast.Name):
+                    if n_.id == "self":
+                        return True
+                    if n_.id in seen:
+                        continue
+                    seen.add(n_.id)
+                    for x in body_walk(conv):
+                        srcs = []
+                        if isinstance(x, (ast.Assign, ast.AnnAssign)) and getattr(x, "value", None) is not None and any(isinstance(t_, ast.Name) and t_.id == n_.id for t_ in ast.walk(x.targets[0] if isinstance(x, ast.Assign) else x.target)):
+                            srcs.append(x.value)
+                        if isinstance(x, ast.For) and any(isinstance(t_, ast.Name) and t_.id == n_.id for t_ in ast.walk(x.target)):
+                            srcs.append(x.iter)
+                        if isinstance(x, ast.Call) and isinstance(x.func, ast.Attribute) and isinstance(x.func.value, ast.Name) and x.func.value.id == n_.id and x.func.attr in ("append", "extend", "add", "update", "insert"):
+                            srcs.extend(x.args)
+                        if any(from_self(s_, seen) for s_ in srcs):
+                            return True
+            return False
+        carries = isinstance(v, ast.Call) and norm(v.func) == "RenderArgs" and len(v.args) >= 2 and any(from_self(a_) for a_ in v.args[1:])
         ck.ob("R7", r, carries, f"RenderArgs.convert must build its result from this set's namespaces (`RenderArgs(render_cls, self)` / the namespaces of the common classes); found `{short(v, 70)}` - "
               "the values held for ancestor classes are lost", stmt="RenderArgs.convert: result carries self's namespaces")
     tra = m.get(TY, "ArgsNamespace.to_render_args")
